@@ -1,0 +1,21 @@
+//go:build verif
+
+package verifapi
+
+import "github.com/deepteams/webp/internal/lossy"
+
+// LossyEncodeConfig is lossy.EncodeConfig.
+type LossyEncodeConfig = lossy.EncodeConfig
+
+// LossyDefaultConfig is lossy.DefaultConfig.
+func LossyDefaultConfig(quality int) lossy.EncodeConfig { return lossy.DefaultConfig(quality) }
+
+// Alpha enum values of package lossy that encodeLossyWithAlpha maps the
+// public alpha options to.
+const (
+	AlphaNoCompression       = lossy.AlphaNoCompression
+	AlphaLosslessCompression = lossy.AlphaLosslessCompression
+	AlphaFilterModeNone      = lossy.AlphaFilterModeNone
+	AlphaFilterModeFast      = lossy.AlphaFilterModeFast
+	AlphaFilterModeBest      = lossy.AlphaFilterModeBest
+)
